@@ -316,3 +316,25 @@ def run_replay(path):
         return 1
     print("OK replay accepted by monitor %s" % prop)
     return 0
+
+
+# ---------------------------------------------------------------------------
+# model-checking configurations of MC_Sync
+
+
+def S(slice_, nkeys=2, vals=(1, 2), weights=(1,), maxt=2, depth=7, timeout=600, dev=None, flush=2, log_=3):
+    return dict(module="MC_Sync.tla", slice=slice_, nkeys=nkeys, vals=set(vals), weights=set(weights),
+                maxt=maxt, depth=depth, timeout=timeout, dev=dev, flush=flush, log=log_)
+
+
+def constants_smc(c, props, emit=False, real=False, dev=None):
+    d = V.SDEV if dev is None else dev
+    k = {"NKeys": c["nkeys"], "MaxInfo": 3 * c["nkeys"] + 2, "Period": 1280 if real else 6,
+         "Dev": set(c["dev"] if c.get("dev") is not None else d), "Slice": c["slice"], "Vals": c["vals"],
+         "Weights": c["weights"], "MaxT": c["maxt"], "CheckProps": set(props), "Emit": emit,
+         "MaxDepth": c["depth"]}
+    if real:
+        k.update({"RLog": 384, "WLog": 384, "Flush": 64, "MaxRepeats": 4, "SBatch": 500})
+    else:
+        k.update({"RLog": c["log"], "WLog": c["log"], "Flush": c["flush"], "MaxRepeats": 4, "SBatch": 6})
+    return k
